@@ -59,6 +59,12 @@ func runC16(env *core.Env) {
 		fx2 := FixFrom(env, w0, rich.Store, rich.N)
 		fx2.Must(core.R("", "--json", "compact"))
 		pres = append(pres, fx2.Store())
+		// a chain todo <- canceled <- error (so that some requested edges are already implied transitively)
+		fx3 := FixFrom(env, w0, rich.Store, rich.N)
+		fx3.Must(core.R("", "--json", "sequence", rich.ByState["todo"], rich.ByState["canceled"], rich.ByState["error"]))
+		pres = append(pres, fx3.Store())
+		// a store whose last writer died mid-line
+		pres = append(pres, tornVariants(rich.Store)[0])
 	}
 	var cases []c10Case
 	for _, c := range c10Catalogue(rich, env.Thorough()) {
@@ -79,6 +85,8 @@ func runC16(env *core.Env) {
 		core.R("", "--json", "plan").In(`{"title":"P","body":"pb","tasks":[{"title":"a","body":"ab"},{"title":"b","after":["a"]},{"title":"c","after":["a","b","a"]}]}`),
 		core.R("", "--json", "sequence", rich.ByState["todo"], rich.ByState["canceled"], rich.ByState["error"]),
 		core.R("", "--json", "sequence", "rm", rich.ByState["doing"], rich.Child),
+		core.R("", "--json", "sequence", rich.ByState["todo"], rich.ByState["error"]),
+		core.R("", "--json", "sequence", rich.ByState["todo"], rich.ByState["canceled"]),
 		core.R("", "--json", "new", "task").In(`{"title":"X","claim":"me"}`), core.R("", "--json", "new", "task").In(`{"title":"X","state":"done"}`),
 		core.R("", "--json", "new", "task").In(`{"title":"X","state":"blocked","claim":"me","body":"b"}`),
 		core.R("", "--json", "--agent", "ag", "new", "task").In(`{"title":"X","state":"doing"}`),
@@ -303,7 +311,7 @@ func runC16(env *core.Env) {
 	env.Finish("model_checking", map[string]interface{}{
 		"states": len(pres), "transitions": evals, "traces_validated_against_impl": validated, "samples": samples.list,
 		"evaluations": evals, "distinct_nontrivial": shapes.len(), "exhaustive": env.TimeLeft(),
-		"rule":       "the C10 request catalogue (every command, field combination, input mode, failing variants) + success-oriented requests, with --json before and after the subcommand, on 3 pre-states; distinct = (command family, outcome shape)",
+		"rule":       "the C10 request catalogue (every command, field combination, input mode, failing variants) + success-oriented requests, with --json before and after the subcommand, on 5 pre-states (rich, fresh, compacted, with a dependency chain, with a torn tail); distinct = (command family, outcome shape)",
 		"successful": okCount, "failing": failCount, "truth_comparisons": truthChecks, "outcome_shapes": shapes.snapshot(),
 		"unconfirmed_candidates": unconfirmed.Load(),
 	}, []string{"finite request catalogue over small value domains", "quickstart/version/--help print documentation, not store state, and are outside the alphabet"})
